@@ -67,6 +67,7 @@ func runC16(c *Ctx) {
 			return
 		}
 		var listing string
+		history := "after-add"
 		if p, msg := try(func() {
 			s, e := g.NewSimulator(gc)
 			if e != nil {
@@ -76,6 +77,22 @@ func runC16(c *Ctx) {
 			if e != nil {
 				panic(e)
 			}
+			// the listing denotes the warrior whatever the simulator did in between
+			switch r.Intn(4) {
+			case 1:
+				s.SpawnWarrior(0, g.Address(r.Intn(3*m)))
+				history = "after-spawn"
+			case 2:
+				s.SpawnWarrior(0, g.Address(r.Intn(3*m)))
+				s.RunCycle()
+				s.RunCycle()
+				history = "after-spawn-and-cycles"
+			case 3:
+				s.SpawnWarrior(0, g.Address(1+r.Intn(m-1)))
+				s.RunCycle()
+				s.Reset()
+				history = "after-reset"
+			}
 			listing = w.LoadCode()
 		}); p {
 			c.Violate("C16:panic:"+panicSite(msg), msg, cs(""))
@@ -83,6 +100,7 @@ func runC16(c *Ctx) {
 		}
 		c.Inc("listings_read")
 		c.Inc("source_" + source)
+		c.Inc("listing_" + history)
 		gotCode, gotStart, rerr := asm.ReadListing(listing, d, m)
 		if rerr != nil {
 			c.Violate("C16:unreadable", fmt.Sprintf("the listing does not follow the pMARS listing conventions: %v", rerr), cs(listing))
